@@ -11,9 +11,9 @@ import (
 // values: from a source value to sink operands, cut by sanitiser calls.
 type Taint struct {
 	P         *Program
-	InScope   func(fn *ssa.Function) bool                 // functions whose bodies are analysed
-	Sanitizer func(c *ssa.CallCommon) bool                // the call's result is clean whatever its arguments
-	Sinks     func(in ssa.Instruction) []ssa.Value        // sink operands of an instruction
+	InScope   func(fn *ssa.Function) bool          // functions whose bodies are analysed
+	Sanitizer func(c *ssa.CallCommon) bool         // the call's result is clean whatever its arguments
+	Sinks     func(in ssa.Instruction) []ssa.Value // sink operands of an instruction
 	memo      map[taintKey]*TaintResult
 }
 
